@@ -38,7 +38,9 @@ def own_used(comp, acc=None):
         for v in (vals if isinstance(vals, list) else [vals]):
             params = getattr(v, "params", None)
             if params is not None and "TZID" in params:
-                acc.add(str(params["TZID"]))
+                t = params["TZID"]
+                for one in (t if isinstance(t, (list, tuple)) else [t]):     # a multi-valued parameter names several ids
+                    acc.add(str(one))
     for s in comp.subcomponents:
         own_used(s, acc)
     return acc
@@ -51,7 +53,8 @@ def spec_ids(tree):
         for p in n["p"]:
             spec = p[1]
             if len(p) > 2 and p[2] and "TZID" in p[2]:
-                out.add(p[2]["TZID"])
+                t = p[2]["TZID"]
+                out.update(t if isinstance(t, list) else [t])
             if spec["k"] == "zoned":
                 out.add(spec["tz"])
             elif spec["k"] == "dates" and spec["v"] and spec["v"][0]["k"] == "zoned":
@@ -170,6 +173,8 @@ def _zprop(draw, comp):
     if how == 0:   # explicit TZID parameter with an id the provider may not know
         tzid = draw(st.sampled_from(UNKNOWN + ALIASES))
         return [name if name not in ("RDATE", "EXDATE", "FREEBUSY") else "DTSTART", {"k": "naive", "v": draw(_wall)}, {"TZID": tzid}]
+    if how == 2 and comp != "VALARM":   # a text property whose TZID parameter has several values
+        return ["COMMENT", {"k": "text", "v": "multi"}, {"TZID": [draw(st.sampled_from(KNOWN)), draw(st.sampled_from(UNKNOWN + KNOWN))]}]
     if how == 1:
         return [name, {"k": "utc", "v": draw(_wall)}] if name not in ("RDATE", "EXDATE", "FREEBUSY") else ["COMMENT", {"k": "text", "v": "no zone here"}]
     if name in ("RDATE", "EXDATE"):
